@@ -51,7 +51,9 @@ enum GRec { Route(Option<GRoute>), Peerdown(String, u32), Custom(u32, u32), Entr
 struct GMsg { name: String, topic: String, ingress: Option<u32>, rec: GRec }
 
 #[derive(Clone, Debug, PartialEq)]
-enum GUpd { Single, Bulk(u64), Withdraw, WithdrawBulk, Query, Eos, Out(Vec<GMsg>) }
+enum GUpd { Single, Bulk(u64), Withdraw, WithdrawBulk, Query, Eos, Out(Vec<GMsg>),
+    /// not an update: the register entry of a source is updated (`Register::update_info`) between two updates (mqtt cases only)
+    Info(u32, GInfo) }
 
 #[derive(Clone, Debug, PartialEq, Default)]
 struct GInfo { unit: Option<String>, parent: Option<u32>, addr: Option<String>, asn: Option<u32>, filename: Option<String>, name: Option<String>, desc: Option<String> }
@@ -105,7 +107,8 @@ fn show_rec(r: &GRec) -> String {
 fn show_msg(m: &GMsg) -> String { format!("{} {} {} {}", enc(&m.name), enc(&m.topic), num_o(&m.ingress), show_rec(&m.rec)) }
 fn show_upd(u: &GUpd) -> String {
     match u { GUpd::Single => "S".into(), GUpd::Bulk(n) => format!("B{n}"), GUpd::Withdraw => "W".into(), GUpd::WithdrawBulk => "WB".into(), GUpd::Query => "Q".into(), GUpd::Eos => "E".into(),
-        GUpd::Out(ms) => format!("O{}", join(ms.iter().map(show_msg), ",")) }
+        GUpd::Out(ms) => format!("O{}", join(ms.iter().map(show_msg), ",")),
+        GUpd::Info(id, i) => format!("I{}", show_info(*id, i)) }
 }
 fn show_upds(us: &[GUpd]) -> String { if us.is_empty() { "-".into() } else { join(us.iter().map(show_upd), ";") } }
 
@@ -130,6 +133,7 @@ fn parse_upds(s: &str) -> Vec<GUpd> {
     s.split(';').map(|u| match u {
         "S" => GUpd::Single, "W" => GUpd::Withdraw, "WB" => GUpd::WithdrawBulk, "Q" => GUpd::Query, "E" => GUpd::Eos,
         _ if u.starts_with('B') => GUpd::Bulk(u[1..].parse().unwrap()),
+        _ if u.starts_with('I') => { let (id, i) = parse_info(&u[1..]); GUpd::Info(id, i) }
         _ => GUpd::Out(if u.len() == 1 { vec![] } else { u[1..].split(',').map(parse_msg).collect() }),
     }).collect()
 }
@@ -180,6 +184,7 @@ fn real_upd(u: &GUpd) -> Update {
         GUpd::Query => Update::QueryResult(uuid::Uuid::nil(), Err("no such prefix".into())),
         GUpd::Eos => Update::UpstreamStatusChange(UpstreamStatus::EndOfStream { ingress_id: 1 }),
         GUpd::Out(ms) => Update::OutputStream(ms.iter().map(real_msg).collect()),
+        GUpd::Info(..) => unreachable!("register edits are applied by run_mqtt, not sent as updates"),
     }
 }
 
@@ -347,12 +352,17 @@ fn run_mqtt(rt: &tokio::runtime::Runtime, comp: &str, tmpl: &str, reg: &[(u32, G
         assert_eq!(got, *id);
         rotonda::verif::c17::update_info(&register, got, real_info(info));
     }
-    let component = rotonda::manager::verif_hooks_c17::component(comp, "mqtt-out", register);
-    let updates: Vec<Update> = us.iter().map(real_upd).collect();
+    let component = rotonda::manager::verif_hooks_c17::component(comp, "mqtt-out", register.clone());
+    enum Step { U(Update), I(u32, IngressInfo) }
+    let steps: Vec<Step> = us.iter().map(|u| match u { GUpd::Info(id, i) => Step::I(*id, real_info(i)), u => Step::U(real_upd(u)) }).collect();
     let tmpl = tmpl.to_string();
     std::panic::catch_unwind(std::panic::AssertUnwindSafe(|| {
         let mut probe = rotonda::targets::verif_hooks_c17::mqtt::MqttProbe::new(component, Some(tmpl));
-        updates.into_iter().map(|u| rt.block_on(probe.feed(u))).collect()
+        steps.into_iter().map(|s| match s {
+            Step::U(u) => rt.block_on(probe.feed(u)),
+            // the source's metadata changes while the target is running (a session learns its peer's AS, a file name, ...)
+            Step::I(id, info) => { rotonda::verif::c17::update_info(&register, id, info); vec![] }
+        }).collect()
     })).map_err(|_| ())
 }
 
@@ -367,8 +377,15 @@ fn canon_payload(content: &str, routes: &[GRoute]) -> String {
 
 fn mqtt_oracle(comp: &str, tmpl: &str, reg: &[(u32, GInfo)], us: &[GUpd], got: &Result<Vec<Vec<(String, String)>>, ()>) -> String {
     let Ok(got) = got else { return "fail mqtt-out:panicked direct_update panicked".into() };
-    let reg: HashMap<u32, &GInfo> = reg.iter().map(|(i, g)| (*i, g)).collect();
+    // the register as the property reads it: the metadata of a source is what the last update_info calls left
+    // (a field that a call does not supply keeps its value), at the moment the message is published
+    let mut reg: HashMap<u32, GInfo> = reg.iter().map(|(i, g)| (*i, g.clone())).collect();
     for (k, (u, g)) in us.iter().zip(got).enumerate() {
+        if let GUpd::Info(id, n) = u {
+            let e = reg.entry(*id).or_default();
+            macro_rules! upd { ($f:ident) => { if n.$f.is_some() { e.$f = n.$f.clone(); } } }
+            upd!(unit); upd!(parent); upd!(addr); upd!(asn); upd!(filename); upd!(name); upd!(desc);
+        }
         let want: Vec<&GMsg> = if let GUpd::Out(ms) = u { ms.iter().filter(|m| m.name == comp).collect() } else { vec![] };
         if want.len() != g.len() { return format!("fail mqtt-out:selection update {k}: {} message(s) addressed to the component, {} published", want.len(), g.len()); }
         for (m, (topic, content)) in want.iter().zip(g) {
@@ -378,7 +395,11 @@ fn mqtt_oracle(comp: &str, tmpl: &str, reg: &[(u32, GInfo)], us: &[GUpd], got: &
             let Ok(v) = serde_json::from_str::<Value>(content) else { return format!("fail mqtt-out:payload-not-json update {k}") };
             let info = m.ingress.and_then(|id| reg.get(&id)).map(|i| info_value(i)).unwrap_or(Value::Null);
             let ok = v.as_array().map(|a| a.len() == 2 && a[0] == info && json_matches(&a[1], &m.rec, false)).unwrap_or(false);
-            if !ok { return format!("fail mqtt-out:payload update {k}: payload is not [ingress info, record]"); }
+            if !ok {
+                let stale = v.as_array().map(|a| a.len() == 2 && a[0] != info && json_matches(&a[1], &m.rec, false)).unwrap_or(false);
+                if stale { return format!("fail mqtt-out:ingress-metadata update {k}: the attached ingress info is not what the register holds for the source when the message is published"); }
+                return format!("fail mqtt-out:payload update {k}: payload is not [ingress info, record]");
+            }
             if content.contains('\n') { return format!("fail mqtt-out:payload-newline update {k}"); }
         }
     }
@@ -539,7 +560,15 @@ fn main() {
         let tmpl = match g.rng.below(9) { 0 => "rotonda/{id}".to_string(), 1 => "{id}".into(), 2 => "a/{id}/b/{id}".into(), 3 => "no-placeholder".into(), 4 => "{id".into(), 5 => "{{id}}".into(), 6 => "{id}{id}".into(), 7 => "{i{id}d}".into(), _ => g.string(true) };
         let nreg = g.rng.below(4) as u32;
         let reg: Vec<(u32, GInfo)> = (1..=nreg).map(|i| (i, g.info())).collect();
-        let us = g.upds("dnxi", nreg);
+        let mut us = g.upds("dnxi", nreg);
+        // metadata of a source changing while the target runs: 0-2 register edits between the updates
+        if g.rng.chance(1, 2) { for _ in 0..g.rng.range(1, 2) {
+            let id = 1 + g.rng.below(nreg as u64 + 1) as u32;
+            let at = g.rng.below(us.len() as u64 + 1) as usize;
+            let i = g.info();
+            us.insert(at, GUpd::Info(id, i));
+            rec.bump("mqtt.register-edit");
+        } }
         mqtt_case(&ctx, &mut rec, &comp, &tmpl, &reg, &us);
     }
     rec.finish(&args, t0.elapsed().as_secs_f64());
